@@ -112,3 +112,66 @@ Example ex_hf : hf_run 3 7 (hf_request 3 7 (mkHf 0 100 0 false))
    mkRsp 3 103 [104;105;106]%N 3 false; mkRsp 6 106 [107]%N 1 false]
   = [(1, [101;102;103]); (4, [104;105;106]); (7, [107])]%N.
 Proof. vm_compute. reflexivity. Qed.
+
+(* ---- the goroutine loop and its response timer ---- *)
+
+(** The HashFetcher goroutine as a loop: where it stands, whether its response timer is armed
+    and whether an expiry sits unread in timer.C.  Events: a response handed over by the Syncer,
+    the timer expiring, quitCh being closed.  [drain] selects the idiom used when a response
+    arrives: plain [timer.Stop()] (the code) or [if !timer.Stop() { <-timer.C }]. *)
+Inductive hloc := LSelect | LExited | LBlockedOnTimer.
+Record hloop := mkHl { hl_loc : hloc; hl_armed : bool; hl_fired : bool; hl_stops : nat }.
+Inductive hev := HRsp | HFire | HReadTimer | HQuit.
+
+Definition hl_step (drain : bool) (s : hloop) (e : hev) : hloop :=
+  match hl_loc s with
+  | LSelect =>
+    match e with
+    | HFire => if hl_armed s then mkHl LSelect false true (hl_stops s) else s            (* the runtime sends on timer.C *)
+    | HReadTimer => if hl_fired s then mkHl LSelect (hl_armed s) false (S (hl_stops s)) else s  (* case <-timer.C: stopSyncer, loop goes on *)
+    | HRsp =>
+        (* case msg := <-responseCh: stop the timer, process, timer.Reset *)
+        if drain && negb (hl_armed s) && negb (hl_fired s) then mkHl LBlockedOnTimer false false (hl_stops s)
+        else mkHl LSelect true (if drain then false else hl_fired s) (hl_stops s)
+    | HQuit => mkHl LExited (hl_armed s) (hl_fired s) (hl_stops s)
+    end
+  | _ => s
+  end.
+
+Definition hl_run (drain : bool) (s : hloop) (es : list hev) : hloop := fold_left (hl_step drain) es s.
+Definition hl_init : hloop := mkHl LSelect true false 0.
+
+(** As coded, the loop is always back in its select: closing quitCh ends the goroutine after any
+    history, in particular after both orders of a late response and the timer expiry. *)
+Lemma hl_code_in_select : forall es s, hl_loc s = LSelect -> hl_loc (hl_run false s es) <> LBlockedOnTimer.
+Proof.
+  induction es as [|e r IH]; intros s H; simpl; [rewrite H; discriminate|].
+  assert (Q : hl_loc (hl_step false s e) = LSelect \/ hl_loc (hl_step false s e) = LExited).
+  { unfold hl_step. rewrite H. destruct e; simpl; auto.
+    - destruct (hl_armed s); auto.
+    - destruct (hl_fired s); auto. }
+  destruct Q as [Q|Q]; [apply IH; auto|].
+  clear IH H. revert Q. generalize (hl_step false s e). induction r as [|x r IH]; intros t Q; simpl; [rewrite Q; discriminate|].
+  apply IH. unfold hl_step. rewrite Q. exact Q.
+Qed.
+
+Theorem hashfetcher_exits_after_stop : forall es,
+  hl_loc (hl_run false hl_init (es ++ [HQuit])) = LExited.
+Proof.
+  intros es. unfold hl_run. rewrite fold_left_app.
+  pose proof (hl_code_in_select es hl_init eq_refl) as H. unfold hl_run in H.
+  set (t := fold_left (hl_step false) es hl_init) in *. cbn [fold_left].
+  unfold hl_step. destruct (hl_loc t) eqn:E; [reflexivity|exact E|contradiction].
+Qed.
+
+(** With the drain idiom the order expiry, timeout branch, late response parks the goroutine on
+    timer.C outside any select: quitCh is never seen again (the seeded C17-r4 change). *)
+Theorem drain_idiom_refuted :
+  hl_loc (hl_run true hl_init [HFire; HReadTimer; HRsp; HQuit]) = LBlockedOnTimer.
+Proof. reflexivity. Qed.
+
+Example both_orders_exit :
+  hl_loc (hl_run false hl_init [HRsp; HFire; HReadTimer; HQuit]) = LExited
+  /\ hl_loc (hl_run false hl_init [HFire; HReadTimer; HRsp; HQuit]) = LExited
+  /\ hl_loc (hl_run false hl_init [HFire; HRsp; HReadTimer; HQuit]) = LExited.
+Proof. repeat split; reflexivity. Qed.
